@@ -4,12 +4,18 @@
    duplicate strings, over-counted references, strings above 64 KiB (long-string escape); the table reader inverts any
    column-major stream of well-typed rows in ANY row order with either reference width; every 16-bit type word with
    integer field sizes 1/2/4; the catalog reader rebuilds any accepted column list from _Columns/_Validation rows;
-   the property-set reader any well-formed set; readers are total.  Composition for a whole foreign file (catalog rows
-   in any order, _Validation absent, layouts of the property set other than the writer's) is covered by the
-   correspondence with the independent encoder tools/msienc.py -- labelled partial.
+   the property-set reader any well-formed set; readers are total.  And the composition (ReaderProofs.v): C02_open_encoded --
+   for EVERY container that is the serialisation of some abstract state (RInv: pool laid out in any way the format allows --
+   entry order, unused entries empty or still holding stale text, duplicates, over-counted references, either reference
+   width; the rows of every table, the catalog tables included, in ANY order; with or without a _Validation table; no
+   sortedness, no exact accounting assumed) Package::open returns exactly that state; every state the library saves is
+   such an encoding; a hand-made non-canonical witness (three-byte references, no _Validation, stale and duplicate pool
+   entries, descending _Columns rows) is shown to satisfy RInv, to violate the library's own invariant, and to open to
+   itself.  Still covered by the correspondence only (independent encoder tools/msienc.py): property-set layouts other
+   than the writer's (value order, gaps), integer field size 1, and non-UTF-8 code pages.
    Statements only; every proof is `exact <lemma>` from theories/. *)
 From Coq Require Import Sorting.Sorted Permutation.
-From MsiModel Require Import Base Sexp Value Expr Category CategoryProofs Column ColumnProofs CodePage Pool Table Container StreamName Propset Summary Query Package PoolProofs TableProofs CatalogProofs PropsetCodecProofs SelectTotal.
+From MsiModel Require Import Base Sexp Value Expr Category CategoryProofs Column ColumnProofs CodePage Pool Table Container StreamName Propset Summary Query Package PoolProofs TableProofs CatalogProofs PropsetCodecProofs SelectTotal QueryProofs DbInv PackageProofs PkgInv ReopenLemmas ReopenProofs ReaderProofs ReaderExamples.
 From MsiGen Require Import GenConsts GenCatalog GenColumn.
 Open Scope N_scope.
 
@@ -97,6 +103,47 @@ Theorem C02_propset_reader :
   forall ps : propset, ps_ok ps -> exists b : bytes, ps_write ps = Some b /\ ps_read b = Ok ps.
 Proof. exact ps_roundtrip. Qed.
 
+(* the pool reader inverts ANY readable pool (stale text in unused entries allowed) *)
+Theorem C02_pool_reader_any_layout :
+  forall p : pool,
+         pool_rd p -> exists pb db : bytes, write_pool p = Some pb /\ write_data p = Some db /\ read_pool pb db = Ok p.
+Proof. exact pool_reader_any. Qed.
+
+(* Package::open of the serialisation of any abstract state returns exactly that state *)
+Theorem C02_open_encoded :
+  forall (prof : profile) (k : pkg), RInv prof k -> pkg_open prof (k_cont k) = Ok k.
+Proof. exact open_encoded. Qed.
+
+(* ... and every table reads back as the rows that were encoded *)
+Theorem C02_open_encoded_rows :
+  forall (prof : profile) (k k' : pkg),
+         RInv prof k ->
+         pkg_open prof (k_cont k) = Ok k' ->
+         k' = k /\
+         (forall e : str * table, In e (k_tabs k) -> tvals prof (the_db k') (snd e) = tvals prof (the_db k) (snd e)).
+Proof. exact open_encoded_rows. Qed.
+
+(* what the library itself saves is such an encoding *)
+Theorem C02_saved_is_encoded :
+  forall (prof : profile) (k : pkg),
+         PInv prof k -> k_fin k = false -> k_sum_mod k = false -> p_mod (k_pool k) = false -> RInv prof k.
+Proof. exact saved_is_encoded. Qed.
+
+(* non-vacuity: a non-canonical hand-made file satisfies the reader invariant ... *)
+Theorem C02_witness_encoded :
+  forall prof : profile, RInv prof kx.
+Proof. exact kx_encoded. Qed.
+
+(* ... violates the library's own (writer) invariant ... *)
+Theorem C02_witness_not_canonical :
+  forall prof : profile, ~ PInv prof kx.
+Proof. exact kx_not_canonical. Qed.
+
+(* ... and opens to exactly itself in both profiles (by computation, independently of the theorem) *)
+Theorem C02_witness_opens :
+  pkg_open Debug contx = Ok kx /\ pkg_open Release contx = Ok kx.
+Proof. exact kx_open_computed. Qed.
+
 Print Assumptions C02_pool_reader.
 Print Assumptions C02_pool_total.
 Print Assumptions C02_cell_reader.
@@ -107,3 +154,10 @@ Print Assumptions C02_type_words.
 Print Assumptions C02_int_sizes.
 Print Assumptions C02_catalog_reader.
 Print Assumptions C02_propset_reader.
+Print Assumptions C02_pool_reader_any_layout.
+Print Assumptions C02_open_encoded.
+Print Assumptions C02_open_encoded_rows.
+Print Assumptions C02_saved_is_encoded.
+Print Assumptions C02_witness_encoded.
+Print Assumptions C02_witness_not_canonical.
+Print Assumptions C02_witness_opens.
